@@ -61,6 +61,39 @@ pub fn convert_objects(
             &mut rng,
         );
 
+        #[cfg(rosu_pp_verif)]
+        crate::verif::trace::emit(|| {
+            let kind = match new_objects.state {
+                ObjectIterState::Fruit(ref fruit) => format!(
+                    r#""kind":"fruit","x_offset":{}"#,
+                    fruit.as_ref().map_or(0.0, |fruit| fruit.x_offset)
+                ),
+                ObjectIterState::JuiceStream(ref stream) => format!(
+                    r#""kind":"stream","events":[{}],"last_ctrl_x":{}"#,
+                    stream.verif_events,
+                    stream
+                        .control_points
+                        .last()
+                        .map_or(0.0, |control_point| control_point.pos.x)
+                ),
+                ObjectIterState::BananaShower(ref shower) => {
+                    format!(r#""kind":"shower","bananas":{}"#, shower.n_bananas)
+                }
+            };
+
+            format!(
+                r#"{{"g":"catch_obj",{kind},"x":{},"t":{},"end":{},"hr":{hr_offsets},"nested":{},"last_pos":{},"last_t":{},"draws":{},"bit_idx":{}}}"#,
+                h.pos.x,
+                h.start_time,
+                h.end_time(),
+                new_objects.len(),
+                last_pos.map_or_else(|| "null".to_owned(), |pos| pos.to_string()),
+                last_start_time,
+                rng.verif_draws,
+                rng.verif_bit_idx(),
+            )
+        });
+
         palpable_objects.extend(new_objects);
     }
 
@@ -73,6 +106,28 @@ pub fn convert_objects(
 
     palpable_objects.sort_by(|a, b| a.start_time.total_cmp(&b.start_time));
     initialize_hyper_dash(cs, &mut palpable_objects);
+
+    #[cfg(rosu_pp_verif)]
+    crate::verif::trace::emit(|| {
+        let rows: Vec<String> = palpable_objects
+            .iter()
+            .map(|h| {
+                format!(
+                    "[{},{},{},{}]",
+                    h.start_time,
+                    h.effective_x(),
+                    u8::from(h.hyper_dash),
+                    h.dist_to_hyper_dash
+                )
+            })
+            .collect();
+
+        format!(
+            r#"{{"g":"catch_done",{},"palpable":[{}]}}"#,
+            count.verif_summary(),
+            rows.join(",")
+        )
+    });
 
     palpable_objects
 }
